@@ -295,3 +295,43 @@ ENTRY(h_tsm_empty){
     algo.execute(tree);
     irsym_observe(seen);
 }
+
+// C12 on the target/source executor: every dependency-ordered partition of the six flags equals one full run
+enum AidTS { TS_STAGED = 450, TS_ALLFLAGS };
+static const int kFlagOfT[6] = { TbfAlgorithmUtils::TbfP2M, TbfAlgorithmUtils::TbfM2M, TbfAlgorithmUtils::TbfM2L, TbfAlgorithmUtils::TbfL2L,
+                                 TbfAlgorithmUtils::TbfL2P, TbfAlgorithmUtils::TbfP2P };
+ENTRY(h_c12_tsm){
+    forkCfg(a0, a1, a3);
+    const Cfg cfg = makeCfg();
+    for(long p = 0; p < NPART; ++p){
+        for(int d = 0; d < DIM; ++d) gP.k[p][d] = chooseK();
+        if(p > 0 && p != NS) irsym_assume(keyOf(gP.k[p - 1]) <= keyOf(gP.k[p]));
+        for(int d = 0; d < DIM; ++d) gP.pos[p][d] = cfg.getBoxCorner()[d] + Real(gP.k[p][d]) * (cfg.getLeafWidths()[d] / Real(2));
+        gP.w[p] = irsym_symbolic_u64();
+    }
+    PosVec src(NS), tgt(NT);
+    for(long p = 0; p < NS; ++p) src[p] = gP.pos[p];
+    for(long p = 0; p < NT; ++p) tgt[p] = gP.pos[NS + p];
+    const long upper = a3 < 0 ? TbfDefaultLastLevel : a3;
+    gTK = TFlags();
+    const long cuts = irsym_choose(16);
+    long groups[6]; long ng = 0; long cur = 0;
+    for(int op = 0; op < 5; ++op){ cur |= kFlagOfT[op]; if(op == 4 || ((cuts >> op) & 1)){ groups[ng++] = cur; cur = 0; } }
+    const long where = irsym_choose(2 * ng + 1);
+    long seq[8]; long ns = 0;
+    for(long g = 0; g <= ng; ++g){
+        if(where >= ng && where - ng == g) seq[ns++] = kFlagOfT[5];
+        if(g < ng) seq[ns++] = groups[g] | (where == g ? kFlagOfT[5] : 0);
+    }
+    U refRhs[NT > 0 ? NT : 1]; U refL[MaxCells]; long nl = 0;
+    { TreeTsm full(cfg, src, tgt, a0, a1 != 0); AlgoT algo(cfg, upper); algo.execute(full);
+      full.applyToAllLeavesTarget([&](auto&& hdr, const long* pidx, auto&&, auto&& rhs){ for(long i = 0; i < hdr.nbParticles; ++i) refRhs[pidx[i]] = rhs[0][i]; });
+      full.applyToAllCellsTarget([&](const long, auto&&, auto&&, auto&& lOpt){ refL[nl++] = lOpt->get()[0]; }); }
+    TreeTsm st(cfg, src, tgt, a0, a1 != 0); AlgoT algo(cfg, upper);
+    long all = 0; for(long i = 0; i < ns; ++i){ algo.execute(st, int(seq[i])); all |= seq[i]; }
+    irsym_assert(all == TbfAlgorithmUtils::TbfNearAndFarFields, TS_ALLFLAGS);
+    bool ok = true; long k = 0;
+    st.applyToAllLeavesTarget([&](auto&& hdr, const long* pidx, auto&&, auto&& rhs){ for(long i = 0; i < hdr.nbParticles; ++i){ ok = ok & (rhs[0][i] == refRhs[pidx[i]]); irsym_observe(rhs[0][i]); } });
+    st.applyToAllCellsTarget([&](const long, auto&&, auto&&, auto&& lOpt){ ok = ok & (lOpt->get()[0] == refL[k++]); });
+    irsym_assert(ok && k == nl, TS_STAGED);
+}
